@@ -60,7 +60,8 @@ rules = [
  (r"src/glyph/serialize\.rs\|fn write_lib_section\|expect", TI("L1: the plist crate's XML writer emits valid UTF-8; encode of libs with arbitrary strings is part of the search")),
  (r"src/glyph/serialize\.rs\|fn write_lib_section\|index", TI("L1: layout of the plist crate's XML output (declaration, DOCTYPE, the <plist version=1.0> line, the root <dict>, the closing </plist> line): markup characters inside keys and strings are escaped, so the first match of the header ends before the first match of the footer; both offsets come from str::find and are char boundaries. Lib strings containing the header / footer text are part of the search")),
  (r"src/glyph/serialize\.rs\|fn write_lib_section\|guards", TI("iteration over the lines of the slice; guards no site")),
- (r"src/glyph/serialize\.rs\|impl Image::to_event\|expect", RE("image-non-utf8", "C03_image_utf8_ok")),
+ (r"src/glyph/serialize\.rs\|impl Image::to_event\|expect", ML("C03_image_to_event_ok")),
+ (r"src/glyph/mod\.rs\|impl Image::new\|guards", MD("image_new")),
  (r"src/glyph/serialize\.rs\|impl Image::to_event\|guards", TI("optional colour attribute; guards no site")),
  (r"src/identifier\.rs\|impl Identifier::from_uuidv4\|unwrap", ML("C03_from_uuid")),
  (r"src/layer\.rs\|<top>\|const\|DEFAULT_LAYER_NAME", MD("DEFAULT_LAYER_NAME")),
@@ -68,15 +69,17 @@ rules = [
  (r"src/layer\.rs\|impl LayerContents::load\|call", ML("C03_default_layer_name_valid")),
  (r"src/layer\.rs\|impl Layer::insert_glyph\|call", DOC99),
  (r"src/layer\.rs\|impl Layer::insert_glyph\|guards", MD("insert_glyph")),
- (r"src/layer\.rs\|impl Layer::load_impl\|unwrap", RE("layer-dir-dotdot", "C03_layer_dir_name_ok")),
- (r"src/layer\.rs\|impl Layer::load_impl\|guards", TI("existence tests of contents.plist / layerinfo.plist: they decide whether the unwrap is reached at all (see finding layer-dir-dotdot), not whether it holds")),
+ (r"src/layer\.rs\|impl Layer::load_impl\|unwrap", ML("C03_load_layer_dir_no_panic")),
+ (r"src/layer\.rs\|impl Layer::load_impl\|guards", TI("existence tests and the plain-file-name / duplicate tests of contents.plist values: they return errors and guard no site (the file_name().unwrap() is guarded by plain_name in LayerContents::load)")),
+ (r"src/layer\.rs\|fn plain_name\|guards", MD("plain_name")),
+ (r"src/layer\.rs\|<top>\|const\|DEFAULT_GLYPHS_DIRNAME", MD("DEFAULT_DIR")),
  (r"src/layer\.rs\|impl Layer::rename_glyph\|unwrap", ML("C03_rename_glyph_no_panic")),
  (r"src/layer\.rs\|impl Layer::rename_glyph\|guards", MD("rename_glyph")),
  (r"src/layer\.rs\|impl Layer::save_with_options\|expect", RE("entry-remove", "C03_layer_save_no_panic")),
  (r"src/layer\.rs\|impl LayerContents::default_layer(_mut)?\|index", RE("layer-slot-assign", "C03_layer_ops_no_panic")),
  (r"src/layer\.rs\|impl LayerContents::get_or_create_layer\|index", ML("C03_layer_ops_no_panic")),
  (r"src/layer\.rs\|impl LayerContents::load\|method", ML("position_lt")),
- (r"src/layer\.rs\|impl LayerContents::load\|guards", TI("default_idx comes from position(..) through ok_or(MissingDefaultLayer)?; the conditions guard no site")),
+ (r"src/layer\.rs\|impl LayerContents::load\|guards", MD("load_layer_dir")),
  (r"src/layer\.rs\|impl LayerContents::new_layer\|call", DOC99),
  (r"src/layer\.rs\|impl LayerContents::new_layer\|unwrap", ML("C03_layer_ops_no_panic")),
  (r"src/layer\.rs\|impl LayerContents::new_layer\|guards", MD("new_layer")),
